@@ -127,6 +127,14 @@ Definition on_new_peer (cfg : dcfg) (hint : N) (st : dstate) (p : N) (cand : boo
                          (aset p cand (d_states st)) in
   if cand && negb (match d_sync st with Some _ => true | None => false end) then start_sync cfg hint st1 else (st1, []).
 
+(* the same registration when the connection has already been lost: serverPeer.OnVersion queues NewPeer as soon as the
+   version message is read, i.e. before the verack; a peer that drops in between is registered with a dead connection
+   (Connected() = false) and leaves through its done event like any other *)
+Definition on_new_peer_gone (cfg : dcfg) (hint : N) (st : dstate) (p : N) (cand : bool) (lb : Z) : dstate * list eff :=
+  let st1 := with_states (with_objs st (aset p {| po_conn := false; po_last := lb; po_start := lb; po_pb := None; po_ps := None |} (d_objs st)))
+                         (aset p cand (d_states st)) in
+  if cand && negb (match d_sync st with Some _ => true | None => false end) then start_sync cfg hint st1 else (st1, []).
+
 (* handleDonePeerMsg *)
 Definition on_done (cfg : dcfg) (hint : N) (st : dstate) (p : N) : dstate * list eff :=
   match aget p (d_states st) with
@@ -250,7 +258,8 @@ Inductive devent :=
 | EHeaders (p : N) (hs : list src)
 | EInv (p : N) (l : list (bool * N))
 | EDone (p : N)
-| ETick (aged : bool).
+| ETick (aged : bool)
+| ENewGone (p : N) (cand : bool) (lb : Z).
 
 Definition d_step (cfg : dcfg) (hint : N) (st : dstate) (e : devent) : dstate * list eff :=
   match e with
@@ -259,4 +268,5 @@ Definition d_step (cfg : dcfg) (hint : N) (st : dstate) (e : devent) : dstate * 
   | EInv p l => on_inv cfg st p l
   | EDone p => on_done cfg hint st p
   | ETick aged => on_tick cfg hint st aged
+  | ENewGone p cand lb => on_new_peer_gone cfg hint st p cand lb
   end.
